@@ -651,6 +651,11 @@ def cfg_specs(ctx, n):
         nsc = rng.choice([1, 1, 2, 3])
         rmin = [rng.choice([0.5, 10, 100, 123.456, 1e-3]) * (k + 1) for k in range(nsc)]
         rmax = [r * rng.choice([2, 10, 7.5]) for r in rmin]
+        if nsc > 1 and i % 3 == 1:       # a scale LIST: not ascending, or with a range listed twice - order and number must survive the file
+            if rng.random() < 0.5:
+                rmin, rmax = rmin[::-1], rmax[::-1]
+            else:
+                rmin, rmax = rmin + [rmin[0]], rmax + [rmax[0]]
         if nsc == 1 and rng.random() < 0.6:
             rmin, rmax = rmin[0], rmax[0]
         spec = dict(rmin=rmin, rmax=rmax, unit=UNITS[(i // 8) % len(UNITS)],
